@@ -361,7 +361,7 @@ int main(int argc, char **argv) {
       if (!nofork) _exit(0);
     } else {
       int st = 0; alarm(0); waitpid(pid, &st, 0);
-      if (!WIFEXITED(st) || WEXITSTATUS(st) != 0) { printf("o -1 crash %d\n", WIFSIGNALED(st) ? WTERMSIG(st) : -1); }
+      if (!WIFEXITED(st) || WEXITSTATUS(st) != 0) { printf("\no -1 crash %d\n", WIFSIGNALED(st) ? WTERMSIG(st) : -1); }
     }
     printf("endcase %s\n", cases[c].first.c_str()); fflush(stdout);
   }
